@@ -35,7 +35,7 @@ RULE = ("Item credits are arbitrary: the subgrader is a table-driven ItemGrader 
 ASSUMPTIONS = ["item texts never contain a delimiter character; pads are plain spaces; expected items are non-blank",
                "the item subgrader strips the student's item (TableGrader does), expected items are table keys as written "
                "(a string-form answer keeps the spaces after a delimiter, as the docs warn)",
-               "credits come from the palette {0, 0.1, 1/3, 0.5, 0.7, 1}: a sum of item credits equals the number of "
+               "credits come from the palette {0, 0.1, 1/3, 0.5, 0.7, 1} or {0, .25, .5, .75, 1}: a sum of item credits equals the number of "
                "items only when every credit is exactly 1 (a value within 1e-12 of 1 that is not structurally 1 would be "
                "discarded under partial_credit=False)",
                "optimal matchings are compared with tolerance 1e-9 when deciding which matchings the grader may have used",
@@ -852,9 +852,14 @@ def case_specs(draw, depth, tier):
     collect_enames(depth, 0, answers, enames)
     collect_snames(depth, 0, sub, snames)
     enames, snames = sorted(enames), sorted(snames)
-    density = draw(st.sampled_from(['sparse', 'normal', 'normal', 'dense']))
+    density = draw(st.sampled_from(['sparse', 'normal', 'normal', 'dense', 'quarters']))
+    # 'quarters': every submitted item earns something against most expected items, at several distinct levels - the
+    # assignment solver then needs several adjustment rounds (a seeded slip in its step 6 only shows there)
     cell = {'sparse': st.sampled_from([0, 0, 0, 0, 0, 0, 0.5, 1]), 'normal': CREDIT,
-            'dense': st.sampled_from([0, 0.1, 1 / 3, 0.5, 0.7, 1, 1])}[density]
+            'dense': st.sampled_from([0, 0.1, 1 / 3, 0.5, 0.7, 1, 1]),
+            'quarters': st.sampled_from([0.25, 0.5, 0.75, 1, 0, 0.25, 0.75, 0.5])}[density]
+    if density == 'quarters':
+        spec['quarters'] = True
     cells = draw(st.lists(cell, min_size=len(enames) * len(snames), max_size=len(enames) * len(snames)))
     table = {}
     for a, e in enumerate(enames):
